@@ -5,6 +5,7 @@ import (
 
 	"verif/harness/common"
 	"verif/harness/core"
+	"verif/harness/stream"
 	simrt "verif/sim/rt"
 )
 
@@ -26,6 +27,12 @@ var props = []*common.Prop{
 		Gen:    func(r *simrt.Rand, tier string, idx int) interface{} { return genOwnE2E(r, tier, idx) },
 		Run:    runOwnE2E,
 		Shrink: shrinkOwnE2E},
+	common.Combine("C15",
+		common.Part{Name: "frames", P: stream.LimProp(), Weight: 7},
+		common.Part{Name: "readlimit", Weight: 1, P: &common.Prop{ID: "C15", New: func() interface{} { return &WSCase{} },
+			Gen:    func(r *simrt.Rand, tier string, idx int) interface{} { return genWSLimitCase(r, tier) },
+			Run:    runWSLimit,
+			Shrink: shrinkWS}}),
 	common.Combine("C16",
 		common.Part{Name: "deadlines", P: core.Prop("C16"), Weight: 3},
 		common.Part{Name: "keepalive", Weight: 1, P: &common.Prop{ID: "C16", New: func() interface{} { return &KACase{} },
